@@ -500,8 +500,14 @@ fn check_type_relation<T: TypeLookup>(
                 fields: fields2,
             },
         ) => {
-            // Names must match if both have names
-            if name1.is_some() && name2.is_some() && name1 != name2 {
+            // A named pattern only admits tuples of that name. For assignability (ALL) an unnamed
+            // self may hold a tuple of any name, so it does not fit a named pattern; for overlap
+            // (ANY) an unnamed side is compatible with every name.
+            let names_clash = match mode {
+                UnionMode::All => name2.is_some() && name1 != name2,
+                UnionMode::Any => name1.is_some() && name2.is_some() && name1 != name2,
+            };
+            if names_clash {
                 return false;
             }
 
